@@ -226,17 +226,22 @@ inductive Remedy where
   | apikey (tokens : Hdrs)                        -- authentication, api_key account
   | oauth (secret : String)                       -- authentication, o_auth account {client_secret: secret}
   | retry (cooldown : Nat) (lo hi : Int)          -- retry{attempts 1, initial_cooldown_seconds, status lo..hi}
+  | throttle (status : Int)                       -- concurrency_based_throttling{max_concurrent_requests 0, response_status_code}
+  | cache                                         -- caching{ttl and sizes large}: one record (one URL)
 deriving DecidableEq, Repr
 
 def fixedBody : String := "{\"message\": \"GO Lunar\"}"
 def fixedHdrs : Hdrs := [("powered-by", "Lunar Interventions Inc.")]
 def retryAfterName : String := "x-lunar-retry-after"
+def throttleBody : String := "Too many requests"
+def throttleHdrs : Hdrs := [("content-type", "text/plain")]
 
 /-- What the request-side plugins have seen/cached so far in one transaction. -/
 structure ReqEnv where
   hdrs : Hdrs                       -- args.Headers (one shared map)
   apikey : Option Hdrs := none      -- APIKeyAuth.headers[endpoint]
   oauth : Option String := none     -- OAuth.bodies[endpoint]
+  cache : Option (Int × String × Hdrs) := none   -- CachingPlugin.responseCache[key]: status, body, headers
 
 /-- `X.EnsureRequestIsUpdated(&args)` on the header map of the arguments. -/
 def ensureReq (H : Hdrs) : ReqAct → Hdrs
@@ -268,6 +273,11 @@ def answerReq (env : ReqEnv) : Remedy → ReqAct × ReqEnv
     let H := ensureReq env.hdrs (.genReq env.hdrs ["content-length"] body)
     (.genReq H ["content-length"] body, { env with hdrs := H, oauth := some body })
   | .retry .. => (.noop, env)
+  | .throttle s => (.early s throttleBody throttleHdrs, env)   -- a FRESH header map per answer
+  | .cache =>                                                   -- a hit answers the stored response
+    match env.cache with
+    | some (s, b, h) => (.early s b h, env)
+    | none => (.noop, env)
 
 /-- The answers of the remedies on the request side, in order. -/
 def scriptReq (env : ReqEnv) : List Remedy → List ReqAct
@@ -287,26 +297,66 @@ def scriptResp (status : Int) : List Remedy → List RespAct
     let a := answerResp status r
     a :: scriptResp (match a with | .modResp _ _ s => s | _ => status) rs
 
-/-- `runOnRequest`. -/
-def legacyFoldReq (H0 : Hdrs) (rs : List Remedy) : ReqAct := foldReq (scriptReq { hdrs := H0 } rs)
+/-- The plugin state after the request-leg answers (authentication caches). -/
+def envAfterAnswers (env : ReqEnv) : List Remedy → ReqEnv
+  | [] => env
+  | r :: rs => envAfterAnswers (answerReq env r).2 rs
+
+/-- Status and body the FIRST caching remedy of a response leg sees (what it stores when its cache
+    is empty): earlier `ModifyResponseAction` answers have been written into the arguments. -/
+def storeAt (status : Int) (body : String) : List Remedy → Option (Int × String)
+  | [] => none
+  | .cache :: _ => some (status, body)
+  | r :: rs =>
+    match answerResp status r with
+    | .modResp _ b s => storeAt s b rs
+    | _ => storeAt status body rs
 
 /-- `a.EnsureResponseIsUpdated(&args)` on the header map of the arguments. -/
 def ensureRespHdrs (m : Hdrs) : RespAct → Hdrs
   | .modResp h2 _ _ => merge m h2
   | _ => m
 
-/-- `obtainModifiedEarlyResponse`: the response-side remedies run on the gateway-made answer; every
-    `ModifyResponseAction` writes its header edits into the early response's OWN header map
-    (`onResponse.Headers` is that map); status and body stay those of the early response. -/
+/-- The cache after a response leg over a response (status, body, header map `h0`): an empty cache
+    takes the response as the first caching remedy saw it; the stored header map IS the
+    arguments' map, so it ends up with every header edit of the leg. -/
+def cacheAfterLeg (cache : Option (Int × String × Hdrs)) (status : Int) (body : String) (h0 : Hdrs)
+    (rs : List Remedy) : Option (Int × String × Hdrs) :=
+  match cache with
+  | some c => some c
+  | none => (storeAt status body rs).map fun sb =>
+      (sb.1, sb.2, (scriptResp status rs).foldl ensureRespHdrs h0)
+
+/-- `runOnRequest` (`env` = the request's header map and what the plugins cached in earlier
+    transactions). -/
+def legacyFoldReq (env : ReqEnv) (rs : List Remedy) : ReqAct := foldReq (scriptReq env rs)
+
+/-- `obtainModifiedEarlyResponse` (F07c repaired): the response-side remedies run on a synthetic
+    response made of the early response's status, body and a COPY of its header map; every
+    `ModifyResponseAction` writes its header edits into that copy, from which the early response
+    is rebuilt; status and body stay those of the early response; the map a remedy handed out is
+    not written to. -/
 def rerunEarly (rs : List Remedy) : ReqAct → ReqAct
   | .early s b h =>
     .early s b ((scriptResp s rs).foldl ensureRespHdrs h)
   | a => a
 
 /-- The action `DispatchOnRequest` encodes. -/
-def legacyReq (H0 : Hdrs) (rs : List Remedy) : ReqAct := rerunEarly rs (legacyFoldReq H0 rs)
+def legacyReq (env : ReqEnv) (rs : List Remedy) : ReqAct := rerunEarly rs (legacyFoldReq env rs)
 
 /-- The action `DispatchOnResponse` encodes for a response with this status. -/
 def legacyResp (status : Int) (rs : List Remedy) : RespAct := foldResp (scriptResp status rs)
+
+/-- Plugin state after a whole `DispatchOnRequest`: the request-leg answers, then — when a remedy
+    answered the request itself — the response leg over that answer (the caching remedy may store it). -/
+def envAfter (env : ReqEnv) (rs : List Remedy) : ReqEnv :=
+  let env1 := envAfterAnswers env rs
+  match legacyFoldReq env rs with
+  | .early s b h => { env1 with cache := cacheAfterLeg env1.cache s b h rs }
+  | _ => env1
+
+/-- Plugin state after `DispatchOnResponse` for a provider response. -/
+def envAfterResp (env : ReqEnv) (status : Int) (body : String) (h0 : Hdrs) (rs : List Remedy) : ReqEnv :=
+  { env with cache := cacheAfterLeg env.cache status body h0 rs }
 
 end LunarVerif.C07
